@@ -273,3 +273,5 @@ while True:
     d1.Setting = bump()
     yield_()
 """, opts={"use_push_pop_functions": True, "inline_functions": False})
+raw("D25c-dead-return-emits-None", "C09", {"kind": "program", "src": {"": HDR + "def f0():\n    stack[3] = 0\n    if 0 < 0:\n        return 0\n    hcf()\nwhile True:\n    db.Setting = f0()\n    yield_()\n"},
+    "opts": {"inline_functions": False}})
